@@ -109,16 +109,7 @@ func (c *Check) ruleCursorStoreAfterAdmission(rule string) {
 	if fn == nil {
 		return
 	}
-	var cursor *ssa.Alloc
-	for _, b := range fn.Blocks {
-		for _, in := range b.Instrs {
-			if st, ok := in.(*ssa.Store); ok {
-				if al, ok := st.Addr.(*ssa.Alloc); ok && derivesFromCall(st.Val, "(*state.State).LastHash") != nil {
-					cursor = al
-				}
-			}
-		}
-	}
+	cursor := headerCursor(fn)
 	if cursor == nil {
 		c.Undecided(rule, "anchor:Handle.lastHash-cursor", fn.Pos(), "no local initialised from state.LastHash() found")
 		return
@@ -422,6 +413,10 @@ func (c *Check) ruleCanonOnEveryPath(rule string) {
 					"both sides of the len==20 test fill the hash", "a push of some length is neither taken verbatim nor hashed: its canonical form is the zero hash, so a subscription for it never matches (and subscribe / compare disagree)")
 			}
 		}
+		if n == 0 && len(callsTo(fn, "spynode.pushDataToHash")) > 0 {
+			c.Ok(rule, fk+"#hash-filled-on-both-sides", fn.Pos(), "must-call", "canonicalises through pushDataToHash (checked there)")
+			continue
+		}
 		c.Min(rule, "len==20 tests in "+fk, n, 1)
 	}
 }
@@ -664,9 +659,16 @@ func (c *Check) rulePendingForkGuardOnParent(rule string) {
 				if !ok {
 					continue
 				}
-				for br := 0; br < 2; br++ {
-					if g(iff, br) && (b.Succs[br] == s.Instr.Block() || reachable(b.Succs[br], s.Instr.Block())) {
-						okEdge = true
+				// the test may be the value form of `a || b` (a phi of b): look at it edge by edge
+				effs := []*ssa.If{iff}
+				for _, p := range b.Preds {
+					effs = append(effs, walkNode{b: b, pred: p}.effectiveIf(iff))
+				}
+				for _, e := range effs {
+					for br := 0; br < 2; br++ {
+						if g(e, br) && (b.Succs[br] == s.Instr.Block() || reachable(b.Succs[br], s.Instr.Block())) {
+							okEdge = true
+						}
 					}
 				}
 			}
@@ -1034,7 +1036,7 @@ func (c *Check) ruleIndexBoundOnSameIndex(rule, fnKey string) {
 				"the index used is the index that was tested against the output count", "an output is taken by an index that was not itself tested against the tx's output count (the test is on another variable): a request naming an out-of-range index panics instead of returning an error")
 		}
 	}
-	c.Min(rule, "indexed reads of a fetched tx's outputs in "+fnKey, n, 2)
+	c.Min(rule, "indexed reads of a fetched tx's outputs in "+fnKey, n, 1)
 }
 
 // ruleRemoveByIdentity (C16.R6 companion): the deregistration arm of the requests thread removes the
